@@ -49,6 +49,16 @@ the check ties to the real compiler line by line on every run):
     whatever else the program holds; `C12_multi_rewiden_witness` — the one remaining way company changes a
     constant (a name registered at two widths, known finding).
 
+  * folding leaves its operands alone (a constant bound to a name is ONE `*mpa.Int` object that several folds
+    and, at circuit generation, `DefineConstants` read): `C12_mpa_call_writes_receiver_only` /
+    `C12_mpa_history_operands_unchanged` — in the register model of `mpa` calls (Model/MpaHist.lean; every
+    method, both paths, every receiver / operand aliasing pattern) a call writes its receiver only, over any
+    history; `C12_constant_value_independent_of_uses` — for EVERY program of declarations and folds
+    (Model/FoldUses.lean) each fold result is a function of the declarations and earlier results only and every
+    declared constant keeps the wires of its declaration; `C12_in_place_fold_witness` — a folder that computes
+    `&^` into its left operand breaks exactly this while every single fold stays right.  The `mpah` and `uses`
+    correspondence lines tie both models to the real code, operands observed after every call.
+
 Not covered by theorems: consumers other than `return` and `^ x`, `+ x`, `x -` at `x = 0` (oracle only; the
 witnesses `C12_result_type_widened_witness`, `C12_result_minbits_witness` and
 `C12_refold_shr_witness` show how a consumer sees more than the low N bits) and
@@ -56,6 +66,8 @@ an end-to-end text-level statement for negative operand forms / N > 64.
 -/
 import MpcVerif.Proofs.Fold
 import MpcVerif.Proofs.FoldTable
+import MpcVerif.Proofs.FoldUses
+import MpcVerif.Proofs.MpaHist
 
 namespace Mpc
 open Mpc.Mpa Mpc.Fold
@@ -1112,6 +1124,105 @@ theorem C12_multi_rewiden_witness :
     multiOutputs cvName false prog = .ok [2 ^ 65, 2 ^ 101 - 2 ^ 65] ∧
     prog.map Item.runtime = [2 ^ 65, 2 ^ 65] ∧
     multiCause cvName false prog 1 = .ok "rewidened-sign-from-own-size" := by
+  decide +kernel
+
+/-! ## Folding leaves its operands alone: "the folded result as seen by THE REST OF THE PROGRAM" -/
+
+/-- **One call writes its receiver only.**  For every method of `mpa.Int`, both paths, every receiver (a fresh
+`mpa.New(bits)` or an existing object — also the object of `x`, of `y`, of both) and every operand choice
+(also `x` and `y` one object): an object that is not the receiver holds after the call what it held before,
+operand or not.  (`MpaHist.step` is the model the `mpah` correspondence lines tie to the real `mpa` package:
+the harness observes every object after every real call.) -/
+theorem C12_mpa_call_writes_receiver_only (regs regs' : List MInt) (s : MpaHist.Step)
+    (h : MpaHist.step regs s = some regs') (j : Nat) (hj : j < regs.length) (hw : s.writes j = false) :
+    regs'[j]? = regs[j]? :=
+  MpaHist.step_frame h j hj hw
+
+-- non-vacuity: `New(100).AndNot(x, y)` on two 100-bit operands; both operands are registers 0 and 1
+example :
+    let x : MInt := ⟨100, 0#64, some 0x70f0f0f0f0f0f0f0f0f0f0f0f⟩
+    let y : MInt := ⟨100, 0#64, some 0x0ff00ff00ff00ff00ff00ff00⟩
+    let s : MpaHist.Step := ⟨.andNot, 0, .fresh 100, 0, 1⟩
+    MpaHist.step [x, y] s = some [x, y, ⟨100, 0#64, some 0x7000f000f000f000f000f000f⟩] ∧
+    s.writes 0 = false ∧ s.writes 1 = false := by
+  decide +kernel
+
+/-- **Histories.**  Over any history of calls sharing their operands, an object that is never a receiver
+holds at the end what it held at the start — however many calls used it as `x`, as `y` or as both. -/
+theorem C12_mpa_history_operands_unchanged (regs regs' : List MInt) (ss : List MpaHist.Step)
+    (h : MpaHist.run regs ss = some regs') (j : Nat) (hj : j < regs.length)
+    (hw : ∀ s ∈ ss, s.writes j = false) : regs'[j]? = regs[j]? :=
+  MpaHist.run_frame h j hj hw
+
+-- non-vacuity: x &^ y, then x + y, then the first result shifted in place: x and y are never written
+example :
+    let x : MInt := ⟨100, 0#64, some 0x70f0f0f0f0f0f0f0f0f0f0f0f⟩
+    let y : MInt := ⟨100, 0#64, some 0x0ff00ff00ff00ff00ff00ff00⟩
+    let ss : List MpaHist.Step := [⟨.andNot, 0, .fresh 100, 0, 1⟩, ⟨.add, 0, .fresh 100, 0, 1⟩, ⟨.lsh, 4, .reg 2, 2, 2⟩]
+    (∃ regs', MpaHist.run [x, y] ss = some regs' ∧ regs'.length = 4 ∧ regs'[0]? = some x ∧ regs'[1]? = some y) ∧
+    (∀ s ∈ ss, s.writes 0 = false) ∧ (∀ s ∈ ss, s.writes 1 = false) := by
+  decide +kernel
+
+/-- **A constant's value is independent of the folds that use it.**  For every naming, all declarations and
+EVERY sequence of folds (any operators, any choice of operand variables — declarations or earlier results, on
+either side, also `v op v`): under pure folding (`pureFold`, the contract `C12_mpa_call_writes_receiver_only`
+lifted to `Binary.evalConst` / `Unary.Eval`)
+
+  * the bindings at the end are the declarations followed by the fold results, and each result is `Use.eval`
+    on the declarations and the EARLIER RESULTS only (`foldResults`) — not on what earlier folds did;
+  * every declared variable is bound at the end to the constant it was declared with, so the wires
+    `DefineConstants` makes for it (`cvWires`) are a function of its declaration only;
+  * two programs with the same declarations and different folds agree on every declared constant.
+
+(`usesOutputs cvName pureFold` is the model the `uses` correspondence lines tie to the real compiler.) -/
+theorem C12_constant_value_independent_of_uses (nm : CV → String) (env : List Bound) (us : List Use) :
+    runUses nm pureFold env us = (foldResults nm env us).map (env ++ ·) ∧
+    (∀ final, runUses nm pureFold env us = .ok final →
+      ∀ i, i < env.length → final[i]? = env[i]? ∧
+        (final[i]?).map (fun b => cvWires b.2) = (env[i]?).map (fun b => cvWires b.2)) ∧
+    (∀ us' f f', runUses nm pureFold env us = .ok f → runUses nm pureFold env us' = .ok f' →
+      ∀ i, i < env.length → f[i]? = f'[i]?) := by
+  refine ⟨runUses_pure nm us env, ?_, ?_⟩
+  · intro final h i hi
+    have := runUses_pure_decls nm us env final h i hi
+    exact ⟨this, by rw [this]⟩
+  · intro us' f f' h h' i hi
+    rw [runUses_pure_decls nm us env f h i hi, runUses_pure_decls nm us' env f' h' i hi]
+
+/-- The program of the demonstration: `v0 := uint100(x); v1 := uint100(y); v2 := v0 &^ v1; v3 := v0 + v1`,
+every variable used with a run-time input. -/
+def usesDemo : UsesProg :=
+  ⟨.uint, 100, [(0x70f0f0f0f0f0f0f0f0f0f0f0f, .pos), (0x0ff00ff00ff00ff00ff00ff00, .pos)],
+   [⟨.bclr, 0, 1⟩, ⟨.add, 0, 1⟩], [.xor, .add, .xor, .add]⟩
+
+-- non-vacuity: the demonstration program runs, and its outputs are those of the run-time circuit
+example :
+    usesOutputs cvName pureFold usesDemo =
+      .ok [0x70f0f0f0f0f0f0f0f0f0f0f0f, 0x0ff00ff00ff00ff00ff00ff00, 0x7000f000f000f000f000f000f,
+           0x80e100e100e100e100e100e0f] ∧
+    usesDemo.runtimeDecl 0 = some 0x70f0f0f0f0f0f0f0f0f0f0f0f ∧
+    circuitOpNat .bclr .uint 100 0x70f0f0f0f0f0f0f0f0f0f0f0f 0x0ff00ff00ff00ff00ff00ff00 = 0x7000f000f000f000f000f000f ∧
+    circuitOpNat .add .uint 100 0x70f0f0f0f0f0f0f0f0f0f0f0f 0x0ff00ff00ff00ff00ff00ff00 = 0x80e100e100e100e100e100e0f := by
+  decide +kernel
+
+/-- **Witness: a fold that computes into its left operand.**  With a large-path `&^` that stores its result in
+the big value of `x` (`inPlaceLeft`) the fold `v0 &^ v1` itself is still right, but `v0` — declared
+0x70f0…f0f — is then seen by the rest of the program as `v0 &^ v1`: by its run-time use (output 0) and by
+the next fold `v0 + v1` (output 3); the wires made for `v0` are no longer those of its declaration (last two
+conjuncts).  So the statement above is a property of the folder, not of the shape of the model: it fails for
+this write-back policy, and a check of one operator per program cannot see it (second conjunct: the fold
+alone is right for every consumer of the folded value).  Replay on the Go code:
+`c12 uses -extra "var u 100 559257617747748265366192590607:pos,78919881726271091143763623680:pos &^:0:1,+:0:1 xor,add,xor,add"`. -/
+theorem C12_in_place_fold_witness :
+    usesOutputs cvName inPlaceLeft usesDemo =
+      .ok [0x7000f000f000f000f000f000f, 0x0ff00ff00ff00ff00ff00ff00, 0x7000f000f000f000f000f000f,
+           0x7ff0fff0fff0fff0fff0fff0f] ∧
+    usesOutputs cvName inPlaceLeft { usesDemo with uses := [⟨.bclr, 0, 1⟩], cons := [.xor, .add, .xor] } =
+      .ok [0x7000f000f000f000f000f000f, 0x0ff00ff00ff00ff00ff00ff00, 0x7000f000f000f000f000f000f] ∧
+    (usesDemo.declared cvName).toOption.map (fun env => (env[0]?).map (fun b => cvWires b.2)) =
+      some (some 0x70f0f0f0f0f0f0f0f0f0f0f0f) ∧
+    (usesDemo.declared cvName >>= fun env => runUses cvName inPlaceLeft env usesDemo.uses).toOption.map
+        (fun final => (final[0]?).map (fun b => cvWires b.2)) = some (some 0x7000f000f000f000f000f000f) := by
   decide +kernel
 
 end Mpc
